@@ -432,6 +432,13 @@ class Flow:
                 return args[0]
         if isinstance(f, ast.Name) and f.id == "tqdm" and args:
             return args[0]
+        # the builtin format(x) / format(x, "spec") is the f-string f"{x}" / f"{x:spec}"
+        if isinstance(f, ast.Name) and f.id == "format" and f.id not in self.env and not kws and 1 <= len(args) <= 2 \
+                and (len(args) == 1 or (args[1][0] == "const" and isinstance(args[1][1], str))):
+            spec = args[1][1] if len(args) == 2 and args[1][1] else None
+            if spec is None and (args[0][0] == "fstr" or (args[0][0] == "const" and isinstance(args[0][1], str))):
+                return args[0]
+            return flatten_fstr(("fstr", (("fmt", args[0], spec, -1),)))
         return ("call", self.ev(f), args, kws)
 
     @staticmethod
